@@ -357,7 +357,7 @@ static int st_apply(uint32_t op, int audit)
         struct walkp w = { l1, 0, -1, 0, 0 };
         int rr, stop = pos == NOSTOP ? -1 : pos;
         if (stop >= Mn[l1]) return 0;
-        w.stop_at = stop; w.stop_val = (stop & 1) ? -(7 + stop) : 7 + stop;    /* any non-zero value stops */
+        w.stop_at = stop; w.stop_val = vrt_stop_value((unsigned)stop * 31u + 5u * vrt_case_tick());    /* any non-zero value stops */
         VRT_OP2("slist.foreach", "l%ld stop@%ld", l1, stop);
         rr = cstl_slist_foreach(&L[l1], visit_cb, &w);
         VRT_CHECK(w.bad == 0, "slist.foreach.order", "foreach visited a wrong element at index %d", w.bad - 1);
